@@ -444,7 +444,10 @@ impl PushPromise {
             src.advance(1);
         }
 
-        if src.len() < 5 {
+        // The promised stream id takes four octets; the header block fragment
+        // that follows may be empty (the block can continue, or start, in a
+        // CONTINUATION frame).
+        if src.len() < 4 {
             return Err(Error::MalformedMessage);
         }
 
